@@ -30,6 +30,7 @@ RULE = ("Hypothesis: instances of 8 harness Serializable classes whose annotatio
         "Non-trivial = the object graph has at least one non-empty container that directly holds enum members or "
         "nested objects (as elements, keys or values) and both round trips were evaluated; distinct by the shape of "
         "the normal form (class names, container structure and sizes, scalar type tags, enum members).")
+RULE += (" " + 'The harness classes include Set[<Serializable>] fields (members hash by identity; compared as multisets of normal forms).')
 ASSUMPTIONS = [
     "tuple fields hold a tuple of exactly the annotated arity or None (a default-constructed object holds () there, "
     "which is not a value of the annotated type); nested-object fields are never None; enum member names are upper "
